@@ -70,6 +70,34 @@ fn names_tag(text: &str, tag: &str) -> bool {
     false
 }
 
+
+/// Plugin route: the parse_mt workflow function wraps the same parser; whatever the library's own error for the
+/// full text identifies (tag, message type, content), the plugin's error must identify too. Relative oracle: only
+/// the items found in the library error's rendering are demanded, and content is demanded only when it has no
+/// character that a Debug rendering escapes.
+fn plugin_route(l: &mut Local, mt: &str, kind: &str, site: &str, tag: &str, content: Option<&str>, b4: &str, case: &Case) {
+    let full = format!("{{1:F01BANKBEBBAXXX0000000000}}{{2:I{mt}BANKDEFFXXXXN}}{{4:\n{b4}\n-}}");
+    let Ok(Err(e)) = guard(|| swift_mt_message::SwiftParser::parse_auto(&full).map(|_| ())) else { return };
+    let lib = format!("{}\n{}\n{}", e, e.debug_report(), format!("{e:?}"));
+    let Ok(Err(pe)) = guard(|| crate::plug::parse_mt(&full).map(|_| ())) else {
+        l.eval(&format!("MT{mt}/plugin-route"), "plugin-accepted-or-panicked(not judged here)", false, 0);
+        return;
+    };
+    l.eval(&format!("MT{mt}/plugin-route"), "plugin-rejected", true, hash_bytes2(mt, &full));
+    if names_tag(&lib, tag) && !names_tag(&pe, tag) {
+        v(l, mt, kind, site, "plugin-loses-tag", format!("MT{mt}: the parse_mt plugin's error for field {tag} does not name it although the parser's own error does: {}", pe.chars().take(100).collect::<String>()), case);
+    } else if kind == "deleted" && lib.contains(mt) && !pe.contains(mt) {
+        v(l, mt, kind, site, "plugin-loses-message-type", format!("MT{mt}: the parse_mt plugin's error for missing field {tag} does not name the message type although the parser's own error does"), case);
+    } else if let Some(c) = content
+        && !c.is_empty()
+        && c.chars().all(|ch| ch.is_ascii_graphic() && ch != '"' && ch != '\\' && ch != '\'' || ch == ' ')
+        && lib.contains(c)
+        && !pe.contains(c)
+    {
+        v(l, mt, kind, site, "plugin-loses-content", format!("MT{mt}: the parse_mt plugin's error for invalid field {tag} does not carry its content although the parser's own error does: {}", pe.chars().take(100).collect::<String>()), case);
+    }
+}
+
 pub fn judge(_cfg: &Config, case: &Case, l: &mut Local, stratum: &str) {
     match case {
         Case::Deleted { mt, tag, place, is_marker, text } => {
@@ -109,6 +137,8 @@ pub fn judge(_cfg: &Config, case: &Case, l: &mut Local, stratum: &str) {
                         );
                     } else if !(s_type || rendered.contains(mt.as_str())) {
                         v(l, mt, "deleted", tag, "no-message-type", format!("MT{mt}: the error for missing field {tag} does not identify the message type"), case);
+                    } else if hash_bytes2(mt, text) % 8 == 0 {
+                        plugin_route(l, mt, "deleted", tag, tag_full, None, text, case);
                     }
                 }
             }
@@ -148,6 +178,8 @@ pub fn judge(_cfg: &Config, case: &Case, l: &mut Local, stratum: &str) {
                         );
                     } else if !content.is_empty() && !(s_val || rendered.contains(content.as_str())) {
                         v(l, mt, "corrupted", tag, "no-content", format!("MT{mt}: the error for invalid field {tag} does not carry its content"), case);
+                    } else if hash_bytes2(mt, text) % 8 == 0 {
+                        plugin_route(l, mt, "corrupted", tag, tag, Some(content.as_str()), text, case);
                     }
                 }
             }
